@@ -121,10 +121,14 @@ theorem rootGeom_grows (cfg : RootCfg) (orig : Attrs) (bb : Gen.BoundingBox) (a 
   have g1 : Grows a a' := by
     split at h1
     · cases h1; exact grows_insert (grows_insert (grows_refl ha) _ _) _ _
-    · obtain ⟨p, _, hp⟩ := Option.map_eq_some_iff.mp h1
-      rw [← hp]; exact grows_insert (grows_refl ha) _ _
-    · obtain ⟨p, _, hp⟩ := Option.map_eq_some_iff.mp h1
-      rw [← hp]; exact grows_insert (grows_refl ha) _ _
+    · split at h1
+      · obtain ⟨p, _, hp⟩ := Option.map_eq_some_iff.mp h1
+        rw [← hp]; exact grows_insert (grows_refl ha) _ _
+      · cases h1; exact grows_refl ha
+    · split at h1
+      · obtain ⟨p, _, hp⟩ := Option.map_eq_some_iff.mp h1
+        rw [← hp]; exact grows_insert (grows_refl ha) _ _
+      · cases h1; exact grows_refl ha
     · cases h1; exact grows_refl ha
   rw [← h2]
   split
@@ -195,10 +199,14 @@ theorem rootGeom_keeps_xmlns (cfg : RootCfg) (orig : Attrs) (bb : Gen.BoundingBo
       have n1 := Attrs.insert_nodup ha cs!"width" (Num.fstr ((extent cfg bb).width * cfg.scale) ++ cs!"mm")
       exact ⟨Attrs.insert_nodup n1 _ _, by
         rw [Attrs.get_insert_other n1 _ _ _ (by decide), Attrs.get_insert_other ha _ _ _ (by decide)]⟩
-    · obtain ⟨p, _, hp⟩ := Option.map_eq_some_iff.mp h1
-      rw [← hp]; exact ⟨Attrs.insert_nodup ha _ _, Attrs.get_insert_other ha _ _ _ (by decide)⟩
-    · obtain ⟨p, _, hp⟩ := Option.map_eq_some_iff.mp h1
-      rw [← hp]; exact ⟨Attrs.insert_nodup ha _ _, Attrs.get_insert_other ha _ _ _ (by decide)⟩
+    · split at h1
+      · obtain ⟨p, _, hp⟩ := Option.map_eq_some_iff.mp h1
+        rw [← hp]; exact ⟨Attrs.insert_nodup ha _ _, Attrs.get_insert_other ha _ _ _ (by decide)⟩
+      · cases h1; exact ⟨ha, rfl⟩
+    · split at h1
+      · obtain ⟨p, _, hp⟩ := Option.map_eq_some_iff.mp h1
+        rw [← hp]; exact ⟨Attrs.insert_nodup ha _ _, Attrs.get_insert_other ha _ _ _ (by decide)⟩
+      · cases h1; exact ⟨ha, rfl⟩
     · cases h1; exact ⟨ha, rfl⟩
   rw [← h2]
   split
